@@ -324,6 +324,7 @@ class Weaver:
         parts = shlex.split(arg)
         name = parts[0]
         ret, tags, attrs, rw_expect, as_name, drop_mut_self = None, (), [], {}, None, False
+        stub = False
         for p in parts[1:]:
             if p.startswith("ret="):
                 ret = p[4:]
@@ -331,6 +332,8 @@ class Weaver:
                 tags = tuple(x for x in p[5:].split(",") if x) + tuple(t for t in self.addtags if t not in p[5:].split(","))
             elif p.startswith("attr="):
                 attrs.append(p[5:])
+            elif p == "stub":
+                stub = True
             elif p.startswith("rw="):
                 r, c = p[3:].split(":")
                 for r1 in r.split("+"):
@@ -418,9 +421,12 @@ class Weaver:
                 raise AnchorLoss("fn %s: rewrite %s matched %d times but is not declared in the unit (rw=%s:%d)" % (qname, r, c, r, c))
             if c:
                 self.rewrite_log.append("%s: %s x%d" % (qname, r, c))
-        if info.external_body:
-            # body kept for the reader but not verified
-            pass
+        if stub:
+            # contract assumed (external_body); the body is not even type-checked: replaced by a stub
+            if not info.external_body:
+                raise AnchorLoss("fn %s: `stub` requires attr=#[verifier::external_body]" % qname)
+            self.emit_spec("    { unimplemented!() }", lineno, qname)
+            return
         self.emit_body(body, body_first_line, qname, inserts, loops)
 
     def fix_signature(self, sig, ret, name):
